@@ -175,7 +175,13 @@ func runWKCase(idx int, w wkSpec) bool {
 		kitWFK = append([]byte(nil), out...)
 		return out, nil, err
 	}
-	unwrapFn := func(wk []byte, a, n string, nonce, tag []byte) ([]byte, error) { return ks.unwrap(wk) }
+	unwrapFn := func(wk []byte, a, n string, nonce, tag []byte) ([]byte, error) {
+		if n != name || a != algName {
+			viol("callback/unwrap-arguments", fmt.Sprintf("unwrap received algorithm %q and a %d-byte key name %q..., the document was encrypted under %q (%d bytes)", a, len(n), abbr(n), abbr(name), len(name)))
+			return nil, errors.New("stand-in key store: no such key")
+		}
+		return ks.unwrap(wk)
+	}
 	kitDec := func(what string, doc []byte) bool {
 		r, _, cleanup := source(doc, rng.Intn(nSrc), rng)
 		dr, err := callDecrypt(r, enc.DecryptOptions{UnwrapKeyFn: unwrapFn})
